@@ -75,7 +75,7 @@ Section UB.
   Qed.
 
   Lemma ws_arg_not_cns : forall G y, match y with FVar _ _ (Some FCns) => False | _ => True end ->
-    ws_arg G y = ws G y /\ arg_ok p y = (frag p y && data_ty p (fterm_type y)).
+    ws_arg G y = ws G y /\ arg_ok p y = (frag p y && is_some (fterm_type y)).
   Proof. intros G y H. destruct y; try (split; reflexivity). destruct chi as [[|]|]; try contradiction; split; reflexivity. Qed.
 
   Lemma ub_args : forall G args, Forall ubc args ->
@@ -100,8 +100,7 @@ Section UB.
   Lemma ub_clauses : forall G cont1 cls, Forall (fun c => ubw (clause_body c)) cls -> cont_cns cont1 ->
     forall st l st', clauses_with (fun b => wc' b) cont1 cls st = Ok (l, st') ->
     forallb (fun c => match c with FClause _ _ names ctx body =>
-                        list_eqb String.eqb names (fvars ctx)
-                        && forallb (fun b => fchi_eqb (fbchi b) FPrd) ctx && frag p body end) cls = true ->
+                        list_eqb String.eqb names (fvars ctx) && ctx_data p ctx && frag p body end) cls = true ->
     forallb (fun c => match c with FClause _ _ _ ctx body => ws (compile_ctx ctx ++ G) body end) cls = true ->
     forall bb, In bb (fvc l) -> inG G (flat_map cl_nm cls) bb \/ In bb (fvt cont1).
   Proof.
@@ -117,6 +116,39 @@ Section UB.
         apply inG_app_inv in Hg; [|exact Hn]. eapply inG_incl; [exact Hg|]. inc.
       + destruct (IH _ _ _ Hrest Hf2 Hw2 bb Hb) as [Hg|Hg]; [left | right; exact Hg].
         eapply inG_incl; [exact Hg|]. inc.
+  Qed.
+
+  Lemma darg_arg_ok : forall args, forallb (darg_ok p) args = true ->
+    forallb (arg_ok p) args = true /\ forallb (fun y => negb (is_cns_var y)) args = true.
+  Proof.
+    induction args as [|y r IH]; intros H; [split; reflexivity|]. simpl in H. apply andb_prop in H. destruct H as [Hy Hr].
+    destruct (IH Hr) as [IH1 IH2]. simpl. rewrite IH1, IH2. unfold darg_ok in Hy.
+    apply andb_prop in Hy. destruct Hy as [Hy Hd]. apply andb_prop in Hy. destruct Hy as [Hc Hf].
+    rewrite Hc. split; [|reflexivity]. rewrite andb_true_r.
+    assert (Hs : is_some (fterm_type y) = true) by (unfold data_ty in Hd; destruct (fterm_type y); [reflexivity | discriminate]).
+    unfold arg_ok. destruct y; try (rewrite Hf, Hs; reflexivity). destruct chi as [[|]|]; try (rewrite Hf, Hs; reflexivity). reflexivity.
+  Qed.
+
+  Lemma ub_coclauses : forall G cls, Forall (fun c => ubw (clause_body c)) cls ->
+    forall st l st', coclauses_with (fun b => wc' b) cls st = Ok (l, st') ->
+    forallb (fun c => match c with FClause _ _ names ctx body =>
+                        list_eqb String.eqb names (fvars ctx) && ctx_data p ctx && frag p body end) cls = true ->
+    forallb (fun c => match c with FClause _ _ _ ctx body => ws (compile_ctx ctx ++ G) body end) cls = true ->
+    forall bb, In bb (fvc l) -> inG G (flat_map cl_nm cls) bb.
+  Proof.
+    intros G cls H. induction H as [|c r Hy Hr IH]; intros st l st' Hs Hf Hw bb Hb.
+    - simpl in Hs. apply mret_inv in Hs. destruct Hs; subst. apply fvc_nil in Hb. contradiction.
+    - destruct c as [pl x names ctx body]. apply coclauses_with_cons_inv in Hs.
+      destruct Hs as [c' [st1 [rest [Ha [Hrest Hl]]]]]. subst l.
+      apply compile_coclause_inv in Ha. destruct Ha as [ty0 [a [sta [body' [Ety [Hfr [Hbody Ec]]]]]]]. subst c'.
+      simpl in Hf, Hw. apply andb_prop in Hf. destruct Hf as [Hf1 Hf2]. apply andb_prop in Hw. destruct Hw as [Hw1 Hw2].
+      apply andb_prop in Hf1. destruct Hf1 as [_ Hf1].
+      apply fvc_cons_iff in Hb. destruct Hb as [[Hb Hn]|Hb].
+      + simpl in Hy. destruct (Hy _ _ _ _ _ Hbody Hf1 Hw1 I bb Hb) as [Hg|Hg].
+        * apply inG_app_inv in Hg; [|intros Hc; apply Hn; apply in_or_app; left; exact Hc].
+          eapply inG_incl; [exact Hg|]. inc.
+        * apply fvt_var in Hg. exfalso. apply Hn. apply in_or_app. right. left. symmetry. exact Hg.
+      + eapply inG_incl; [eapply IH; eauto|]. inc.
   Qed.
 
   Lemma ub_both : forall t, ubw t /\ ubc t.
@@ -195,18 +227,26 @@ Section UB.
       eapply ub_default; [|exact H0|exact Hb]. intros cont st0 s0 st0' Hs Hc bb0 Hb0.
       eapply HW; eauto; rewrite wc_unfold; exact Hs.
     - (* FLet *)
-      destruct IHt1 as [W1 _], IHt2 as [W2 _].
+      destruct IHt1 as [W1 C1], IHt2 as [W2 _].
       assert (HW : ubw (FLet v vty t1 t2 ty)).
       { intros G cont st s0 st' H0 Hf Hw Hc bb Hb. rewrite wc_unfold in H0. simpl in Hf, Hw.
-        apply andb_prop in Hf. destruct Hf as [Hf Hf2]. apply andb_prop in Hf. destruct Hf as [Hcd Hf1].
-        apply andb_prop in Hw. destruct Hw as [Hw1 Hw2]. apply negb_true_iff in Hcd.
-        apply wc_let_inv in H0; [|rewrite ty_is_codata_compile; exact Hcd].
-        destruct H0 as [body [st1 [Hbody Hbound]]].
-        destruct (W1 _ _ _ _ _ Hbound Hf1 Hw1 eq_refl bb Hb) as [Hg|Hg].
-        - left. eapply inG_incl; [exact Hg|]. inc.
-        - apply fvt_mu_iff in Hg. destruct Hg as [Hg Hne]. simpl in Hne.
-          destruct (W2 _ _ _ _ _ Hbody Hf2 Hw2 Hc bb Hg) as [Hg2|Hg2]; [left | right; exact Hg2].
+        apply andb_prop in Hf. destruct Hf as [Hf1 Hf2].
+        apply andb_prop in Hw. destruct Hw as [Hw1 Hw2].
+        assert (Hbody : forall body st1, wc' t2 cont st = Ok (body, st1) ->
+                  forall bb, In bb (fvt (CMu CCns (new_id v) body (compile_ty vty))) ->
+                  inG G (nm (FLet v vty t1 t2 ty)) bb \/ In bb (fvt cont)).
+        { intros body st1 Hbody bb0 Hg. apply fvt_mu_iff in Hg. destruct Hg as [Hg Hne]. simpl in Hne.
+          destruct (W2 _ _ _ _ _ Hbody Hf2 Hw2 Hc bb0 Hg) as [Hg2|Hg2]; [left | right; exact Hg2].
           apply inG_cons_inv in Hg2; [|exact Hne]. eapply inG_incl; [exact Hg2|]. inc. }
+        destruct (ty_is_codata (codata_of p) (compile_ty vty)) eqn:Hcd.
+        - apply wc_let_inv_codata in H0; [|exact Hcd]. destruct H0 as [body [st1 [pb [Hbody0 [Hpb Es]]]]]. subst s0.
+          apply fvs_cut in Hb. destruct Hb as [Hb|Hb].
+          + left. eapply inG_incl; [eapply C1; eauto|]. inc.
+          + eapply Hbody; eauto.
+        - apply wc_let_inv in H0; [|exact Hcd]. destruct H0 as [body [st1 [Hbody0 Hbound]]].
+          destruct (W1 _ _ _ _ _ Hbound Hf1 Hw1 eq_refl bb Hb) as [Hg|Hg].
+          + left. eapply inG_incl; [exact Hg|]. inc.
+          + eapply Hbody; eauto. }
       split; [exact HW|].
       intros G ty0' st c st' H0 Hf Hw bb Hb. rewrite cmp_unfold in H0.
       eapply ub_default; [|exact H0|exact Hb]. intros cont st0 s0 st0' Hs Hc bb0 Hb0.
@@ -229,7 +269,7 @@ Section UB.
       assert (HC : ubc (FCtor x args ty)).
       { intros G ty0' st c st' H0 Hf Hw bb Hb. rewrite cmp_unfold in H0. apply cmp_ctor_inv in H0.
         destruct H0 as [args' [ty0 [Hargs [Ety Ec]]]]. subst c. simpl in Hf, Hw.
-        apply andb_prop in Hf. destruct Hf as [_ Hf].
+        apply darg_arg_ok in Hf. destruct Hf as [Hf _].
         apply fvt_xtor in Hb. eapply (ub_args G args HA); eauto. }
       split; [|exact HC].
       intros G cont st s0 st' H0 Hf Hw Hc bb Hb. rewrite wc_unfold in H0. unfold wc_ctor in H0.
@@ -237,7 +277,23 @@ Section UB.
       apply fvs_cut in Hb. destruct Hb as [Hb|Hb]; [left | right; exact Hb].
       eapply (HC G CI64); [rewrite cmp_unfold; exact E0 | exact Hf | exact Hw | exact Hb].
     - (* FDtor *)
-      split; intros; discriminate.
+      destruct IHt as [Ws _].
+      assert (HA : Forall ubc args). { eapply Forall_impl; [|exact H]. intros a [_ Ca]. exact Ca. }
+      assert (HW : ubw (FDtor t x targs args ty)).
+      { intros G cont st s0 st' H0 Hf Hw Hc bb Hb. rewrite wc_unfold in H0. apply wc_dtor_inv in H0.
+        destruct H0 as [args' [st1 [sty0 [Hargs [Esty Hscrut]]]]]. simpl in Hf, Hw.
+        apply andb_prop in Hf. destruct Hf as [Hf _]. apply andb_prop in Hf. destruct Hf as [Hfs Hfa].
+        apply andb_prop in Hw. destruct Hw as [Hws Hwa].
+        apply darg_arg_ok in Hfa. destruct Hfa as [Hfa _].
+        destruct (Ws _ _ _ _ _ Hscrut Hfs Hws I bb Hb) as [Hg|Hg].
+        - left. eapply inG_incl; [exact Hg|]. inc.
+        - apply fvt_xtor in Hg. apply fva_app in Hg. destruct Hg as [Hg|Hg].
+          + left. eapply inG_incl; [eapply (ub_args G args HA); eauto|]. inc.
+          + right. apply fva_cons in Hg. destruct Hg as [Hg|Hg]; [exact Hg | apply fva_nil in Hg; contradiction]. }
+      split; [exact HW|].
+      intros G ty0' st c st' H0 Hf Hw bb Hb. rewrite cmp_unfold in H0.
+      eapply ub_default; [|exact H0|exact Hb]. intros cont st0 s0 st0' Hs Hc bb0 Hb0.
+      eapply HW; eauto; rewrite wc_unfold; exact Hs.
     - (* FCase *)
       destruct IHt as [Ws _].
       assert (HB : Forall (fun c => ubw (clause_body c)) cls).
@@ -261,7 +317,17 @@ Section UB.
       eapply ub_default; [|exact H0|exact Hb]. intros cont st0 s0 st0' Hs Hc bb0 Hb0.
       eapply HW; eauto; rewrite wc_unfold; exact Hs.
     - (* FNew *)
-      split; intros; discriminate.
+      assert (HB : Forall (fun c => ubw (clause_body c)) cls).
+      { eapply Forall_impl; [|exact H]. intros a [Wa _]. exact Wa. }
+      assert (HC : ubc (FNew cls ty)).
+      { intros G ty0' st c st' H0 Hf Hw bb Hb. rewrite cmp_unfold in H0. apply cmp_new_inv in H0.
+        destruct H0 as [cls' [ty0 [Hcls [Ety Ec]]]]. subst c. simpl in Hf, Hw.
+        apply fvt_xcase in Hb. eapply (ub_coclauses G cls HB); eauto. }
+      split; [|exact HC].
+      intros G cont st s0 st' H0 Hf Hw Hc bb Hb. rewrite wc_unfold in H0. unfold wc_new in H0.
+      minv H0. apply mlift_inv in E. destruct E as [E ->]. minv H0. apply mret_inv in H0. destruct H0; subst.
+      apply fvs_cut in Hb. destruct Hb as [Hb|Hb]; [left | right; exact Hb].
+      eapply (HC G CI64); [rewrite cmp_unfold; exact E0 | exact Hf | exact Hw | exact Hb].
     - (* FLabel *)
       destruct IHt as [W _].
       assert (HC : ubc (FLabel l t ty)).
